@@ -624,6 +624,14 @@ Proof.
 Qed.
 Lemma pc_read_errpipe fd : pc (read_errpipe fd).
 Proof. unfold read_errpipe. apply pc_bind; [apply pc_gets|]. intros nf. apply pc_read_retry. Qed.
+Lemma pc_waitpid_retry fuel pid : pc (waitpid_retry fuel pid).
+Proof.
+  induction fuel as [|f IH]; cbn [waitpid_retry]; [apply pc_crash|].
+  apply pc_bind; [apply pc_sys_waitpid|]. intros [r st]. destruct (r <? 0); [|apply pc_ret].
+  apply pc_bind; [apply pc_get_errno|]. intros e. destruct (e =? EINTR); [exact IH|apply pc_ret].
+Qed.
+Lemma pc_waitpid_child pid : pc (waitpid_child pid).
+Proof. unfold waitpid_child. apply pc_bind; [apply pc_gets|]. intros nf. apply pc_waitpid_retry. Qed.
 
 (* ================= 3. the mask, fork, and the two theorems ================= *)
 (* everything of the caller's state except the mask *)
@@ -860,7 +868,7 @@ Proof.
   assert (P8 : pcpost w7 w8).
   { destruct (0 <? (if q <? 0 then 0 else decode_int (runs_bytes rs))).
     - apply bind_inv in E8 as ([rw stw] & w8' & Ew & E8).
-      pose proof (pc_run _ _ _ _ (pc_sys_waitpid _) ltac:(apply P7) Ew) as Pw.
+      pose proof (pc_run _ _ _ _ (pc_waitpid_child _) ltac:(apply P7) Ew) as Pw.
       destruct (rw <? 0).
       + apply bind_inv in E8 as (e & w8'' & Eg & E8). apply gets_inv in Eg as [-> ->]. apply ret_inv in E8 as [_ ->]. exact Pw.
       + apply ret_inv in E8 as [_ ->]. exact Pw.
@@ -931,7 +939,7 @@ Proof.
   cbv beta iota zeta in E.
   assert (P46 : pcpost w4 w6) by (eapply pcpost_trans; eassumption).
   destruct (0 <? (if q <? 0 then 0 else decode_int (runs_bytes rs))).
-  - apply bind_inv in E as ([rw stw] & w7 & E7 & E). pose proof (pc_run _ _ _ _ (pc_sys_waitpid _) ltac:(apply P6) E7) as P7.
+  - apply bind_inv in E as ([rw stw] & w7 & E7 & E). pose proof (pc_run _ _ _ _ (pc_waitpid_child _) ltac:(apply P6) E7) as P7.
     cbv beta iota in E.
     apply bind_inv in E as (r8 & w8 & E8 & E).
     assert (P8 : pcpost w7 w8).
